@@ -310,7 +310,8 @@ PROPS = {
     "C04": dict(
         theorems=[T + "undo_choose", T + "redo_undo", T + "choose_clears_redo", T + "undo_empty_noop", T + "redo_empty_noop",
                   T + "choose_out_of_range_noop", T + "step_WF", T + "run_WF", T + "undo_depth_le_cap", T + "init_WF",
-                  T + "undoCap_extracted"],
+                  T + "undoCap_extracted", T + "abs_step", T + "abs_run", T + "undo_redo_after_any_history",
+                  T + "Zip.undo_choose", T + "Zip.redo_undo", T + "Zip.undo_redo", T + "Zip.choose_keeps_older"],
         run=run_c04,
         rule="random words over {choose valid, choose invalid, undo, redo, goto, save/load, reads} on generated stories "
              "with in-place list/dict mutation, chains, hooks, parameters, @join; plus a 60-choice probe crossing the "
@@ -596,7 +597,7 @@ NOT_YET = {}
 for _k, _t in {
     "C02": "proof, for every story, Sem and engine state: choose_out_of_range_noop / doChoose_history / undo_choose; doChoose_used (a valid index records exactly the identity of the i-th SHOWN choice when it is one-time, whatever the navigation then does) and isAvail_used (a used one-time choice is not available); offerChoices_sec / _avail / _subset (every choice handed out passed the section test and the availability test and is one of the passage's or the render's). That the offered list is ALL enabled choices in the variables as they stand is decided by the oracle on the real engine (false in two recorded classes)",
     "C03": "proof: read_noop/reads_noop (every read call leaves the whole engine state unchanged), goto_cached, current_after_goto, current_after_choose; executePassage_log / execCommands_log (a successful entry records the entry once and then exactly one event per command, in source order, before any text is rendered) for every story, Sem and state; once-per-chain entry counting by oracle on the real engine",
-    "C04": "proof: undo_choose, redo_undo, choose_clears_redo, empty no-ops, rejected index no-op and the invariant run_WF / undo_depth_le_cap for all histories of any length; extracted maxlen table proved equal to the model's cap",
+    "C04": "proof: refinement of the whole undo/redo machinery to a zipper of observations (past <= 50, present, future): abs_step (every API call moves the abstraction exactly as the zipper does, told only whether the call was accepted and which observation it ended in) and abs_run (every history of calls of any length from every reachable state), with the zipper laws Zip.undo_choose / redo_undo / undo_redo / choose_keeps_older and the engine-level corollary undo_redo_after_any_history; plus undo_choose, redo_undo, choose_clears_redo, empty no-ops, rejected index no-op and the invariant run_WF / undo_depth_le_cap; extracted maxlen table proved equal to the model's cap. In-place mutation of shared objects is outside Sem's value semantics and is decided by the alias / stdlib families on the real engine",
 }.items():
     PROPS[_k]["level_text"] = _t
 
